@@ -26,7 +26,7 @@ Import ListNotations.
 From HV Require Import lib.Harness model.Validity model.Builder spec.BuilderS proofs.BuilderP proofs.BuilderExtP
   spec.BuilderWFS proofs.BuilderFrameP proofs.BuilderRulesP proofs.BuilderTypeP
   proofs.BuilderAcyclicP proofs.BuilderNonLocalP proofs.BuilderInputsP proofs.BuilderLinearP proofs.BuilderCopyP
-  model.Builder2 proofs.Builder2EmbP spec.Builder2WFS proofs.Builder2P proofs.Builder2FrameP proofs.Builder2RulesP.
+  model.Builder2 proofs.Builder2EmbP spec.Builder2WFS proofs.Builder2P proofs.Builder2FrameP proofs.Builder2RulesP proofs.Builder2TypeP.
 
 (* Proved for ALL programs of the modelled language, with no well-formedness premise: whenever the
    builder calls do not raise, the serialised document satisfies
@@ -238,3 +238,37 @@ Theorem C01_builder2_root_func_cfg : forall tys p g,
   r_root_no_edges g = true /\ r_no_edge_into_func tys g = true /\ r_cfg_edges g = true.
 Proof. exact run2_root_func_cfg. Qed.
 Print Assumptions C01_builder2_root_func_cfg.
+
+(* Third pass.  For every WELL-TYPED program of the EXTENDED language (spec/Builder2WFS.v: wt_prog2, a boolean computed
+   from the program text: wires bound, typed and alive — the wires and statements of a separately built program are
+   dead outside it and the enclosing program's are dead inside —, arguments of fixed-signature operations / Tags /
+   CallIndirect / inserted programs have the right input row, a loop body outputs Sum [just_inputs; just_outputs] ::
+   rest, all cases of a conditional give the same outputs, Tags and constants agree with the type table,
+   add_state_order joins live statements) whose builder calls do not raise:
+     r_io_rows (rule 3)       : Input/Output rows of every DFG, Case and TailLoop body (Sum(just_in, just_out) + rest),
+                                the Case children of every Conditional (variant i + other inputs, common outputs);
+     r_derived_types (rule 4) : the sum types of Tag, Conditional, TailLoop and the function type of CallIndirect;
+     r_port_counts (rule 5), r_edge_kinds (rule 7) : every edge attaches to existing ports of equal kind and type, also the
+                                re-indexed edges of inserted programs and the wires into TailLoop / Conditional / inserted
+                                roots;
+     r_const (rule 17)        : constants inhabit their type.
+   Rules 8-12, 14, 15 are proved for the embedded language only (C01_builder2_valid_embedded) and monitored for the rest
+   of the extended language. *)
+Theorem C01_builder2_typed_rules : forall tys p g,
+  wt_prog2 tys p = true -> croot_ok p = true -> run2 tys p = Ok g ->
+  r_io_rows g = true /\ r_derived_types tys g = true /\ r_port_counts g = true /\ r_edge_kinds g = true /\
+  r_const tys [] g = true.
+Proof. exact run2_typed_rules. Qed.
+Print Assumptions C01_builder2_typed_rules.
+
+(* the example with a loop, a conditional and an inserted Dfg satisfies the premises *)
+Theorem C01_builder2_example_wt : wt_prog2 ex4_tys ex4_prog = true /\ croot_ok ex4_prog = true.
+Proof. exact (conj ex4_wt (proj1 ex4_runs)). Qed.
+Print Assumptions C01_builder2_example_wt.
+
+(* the typing premise is needed: hugr-py accepts a TailLoop body whose remaining outputs are not the loop's `rest`
+   row (TailLoop._set_out_types asserts the first variant row only); the document then breaks rule 3 *)
+Theorem C01_loop_rest_refuted : wt_prog2 ex_rest_tys ex_rest = false /\ croot_ok ex_rest = true /\
+  exists g, run2 ex_rest_tys ex_rest = Ok g /\ r_io_rows g = false.
+Proof. exact ex_rest_refuted. Qed.
+Print Assumptions C01_loop_rest_refuted.
